@@ -62,27 +62,65 @@ theorem C16_position_flux_partial {lv : List (Name × Nat)} {r : BRxn} {lm : Lis
           ⟨r.name, 0, (paddedSubs lv r).getD l Slot.ext, Slot.ext⟩ :=
   position_flux hok hm hd σ hC l hl
 
-/-- **marginal, per product position** (additionally: involutive map): the per-position reaction
-    the linear mapper creates for product position `h` runs at exactly the rate at which label
-    arrives at product position `h` in the isotopomer model (the product label at `h` is the rate
-    suffix character `labelmap[h]`, `C05_position_map`) -/
-theorem C16_marginal_partial {lv : List (Name × Nat)} {r : BRxn} {lm : List Nat}
-    {rs : List LRxn} (hok : isotopomerReactions lv r lm = .ok rs)
+/-- **marginal** (mass-action rate, distinct labelled occurrences, non-zero substrate pools,
+    involutive map): with enrichments, pool sizes and flux taken from an isotopomer state, the
+    derivative the linear model's per-position reactions of one base reaction give to position
+    `(x, i)` is the derivative its isotopomer reactions give to the amount of `x` labelled at `i`,
+    divided by the pool of `x`.  (Both models' right-hand sides are sums of such contributions
+    over the base reactions.) -/
+theorem C16_marginal_partial (lv : List (Name × Nat)) (r : BRxn) (lm : List Nat)
+    (others : List (Name × List (Name × Int))) (rs : List LRxn) (lrs : List LinRxn)
+    (hlab : ∀ c ∈ subsOf r ++ prodsOf r, (lv.lookup c).isSome)
+    (hiso : isotopomerReactions lv r lm = .ok rs)
+    (hlin : linRxnsOf (isosOf lv) ((r.name, r.stoich) :: others) r.name lm = .ok lrs)
     (hm : MassAction lv r) (hd : DistinctOccurrences lv r)
     (hinv : InvolutiveMap (max (nSub lv r) (nProd lv r)) lm) (σ : LName → Rat)
     (hC : ∀ c ∈ subsOf r, labelsOf lv c > 0 → totalOf σ c (labelsOf lv c) ≠ 0)
-    (h : Nat) (hh : h < max (nSub lv r) (nProd lv r)) :
-    ∃ res, mapSubstratesToLabelmap (paddedSubs lv r) lm = .ok res ∧
-      LinRxn.rate (enrichOf lv σ) (fun _ => r.rate (totalsEnv lv σ))
-          ⟨r.name, h, res.getD h Slot.ext, (paddedProds lv r).getD h Slot.ext⟩
-        = (rs.map fun rx => ind ((suffixOf rx).getD (lm.getD h 0) false) * rx.rate σ).sum := by
+    (C : Name → Rat) (x : Name) (i : Nat) :
+    linRhs lrs (enrichOf lv σ) (fun _ => r.rate (totalsEnv lv σ)) C (Slot.pos x i)
+      = (1 / C x) * ((labelledAt x (labelsOf lv x) i).map (rhsOf rs σ)).sum := by
+  rw [linRxnsOf_eq lv r lm others hlab, if_neg (by rw [hinv.1.length]; omega)] at hlin
   have hinv' : InvolutiveMap (paddedSubs lv r).length lm := by rw [paddedSubs_length]; exact hinv
-  refine ⟨_, mapSubstratesToLabelmap_involutive _ lm hinv', ?_⟩
-  have hl := hinv.1.getD_lt hh
-  rw [position_flux hok hm hd σ hC (lm.getD h 0) hl]
-  have hlen : h < lm.length := by rw [hinv.1.length]; exact hh
-  simp only [LinRxn.rate, documentedSources, List.getD_eq_getElem?_getD, List.getElem?_map,
-    List.getElem?_eq_getElem hlen, Option.map_some, Option.getD_some]
+  rw [mapSubstratesToLabelmap_involutive _ lm hinv'] at hlin
+  simp only [Except.map, Except.ok.injEq] at hlin
+  subst hlin
+  exact marginal_full hiso hm hd hinv σ hC C x i
+
+/-- without the involution hypothesis the statement is false of the code as it stands (finding
+    F-C16-1): A → B (three positions each, rate `k·A`) with the 3-cycle `[2, 0, 1]`; half of the
+    A pool labelled at position 0 only.  In the isotopomer model position 2 of B is fed by
+    position 1 of A (unlabelled): no label arrives; the linear model feeds it from position 0. -/
+theorem C16_marginal_fails :
+    ∃ (lv : List (Name × Nat)) (r : BRxn) (lm : List Nat) (rs : List LRxn) (lrs : List LinRxn)
+      (σ : LName → Rat) (C : Name → Rat) (x : Name) (i : Nat),
+      isotopomerReactions lv r lm = .ok rs ∧
+      linRxnsOf (isosOf lv) [(r.name, r.stoich)] r.name lm = .ok lrs ∧
+      MassAction lv r ∧ DistinctOccurrences lv r ∧ PermMap (max (nSub lv r) (nProd lv r)) lm ∧
+      linRhs lrs (enrichOf lv σ) (fun _ => r.rate (totalsEnv lv σ)) C (Slot.pos x i)
+        ≠ (1 / C x) * ((labelledAt x (labelsOf lv x) i).map (rhsOf rs σ)).sum := by
+  refine ⟨[("A", 3), ("B", 3)],
+    { name := "v", fn := listProd, args := ["k", "A"], stoich := [("A", -1), ("B", 1)] },
+    [2, 0, 1], _, _,
+    (fun n => if n = ⟨"A", some [true, false, false]⟩ then 1
+      else if n = ⟨"A", some [false, false, false]⟩ then 1
+      else if n = ⟨"B", some [false, false, false]⟩ then 2
+      else if n = plain "k" then 1 else 0),
+    (fun _ => 2), "B", 2, rfl, rfl, ⟨fun _ => rfl, ?_⟩, by decide, by decide, ?_⟩
+  · intro a ha
+    by_cases e : a = "A"
+    · subst e; decide
+    · by_cases e2 : a = "B"
+      · subst e2; decide
+      · exfalso
+        have e1 : (a == "A") = false := by simpa using e
+        have e3 : (a == "B") = false := by simpa using e2
+        simp [labelsOf, List.lookup, e1, e3] at ha
+  · decide +kernel
+
+/-- non-vacuity of `C16_marginal_partial`'s structural hypotheses: A + B → C with the swap map -/
+example : DistinctOccurrences [("A", 1), ("B", 1), ("C", 2)]
+      { name := "v", fn := listProd, args := ["k", "A", "B"], stoich := [("A", -1), ("B", -1), ("C", 1)] }
+    ∧ InvolutiveMap 2 [1, 0] := by decide
 
 /-- **uniform enrichment** (any permutation map, either reading): if every position and the
     external pool have enrichment `e`, one base reaction contributes
